@@ -10,6 +10,39 @@ SEARCH_SETTINGS = ["-1", "0", "1", "64", "4096"]
 DISPATCH_SETTINGS = ["-1", "0", "1", "64", "4096", "abc", None]
 
 
+def build_test_binary(ctx, pkg_dir, files, name):
+    """go test -c once; the binary is then started once per setting (the setting is read once per process)."""
+    ov = vf.make_overlay(ctx, pkg_dir, files)
+    out = os.path.join(ctx.tmp, name)
+    rc, log = vf.sh(["go", "test", "-c", "-overlay", ov, "-vet=off", "-o", out, "./" + pkg_dir], cwd=vf.REPO, env=vf.go_env(), timeout=1500)
+    return (out if rc == 0 and os.path.exists(out) else None), log
+
+
+def run_test_binary(ctx, binary, pkg_dir, run, n, env, out_name, timeout):
+    outp = os.path.join(ctx.tmp, out_name)
+    if os.path.exists(outp):
+        os.remove(outp)
+    e = vf.go_env({"VERIF_OUT": outp, "VERIF_SEED": str(ctx.seed), "VERIF_N": str(n), "VERIF_TIER": ctx.tier,
+                   "VERIF_TMP": ctx.tmp, "VERIF_ROOT": vf.ROOT})
+    if ctx.replay:
+        e["VERIF_REPLAY"] = os.path.abspath(ctx.replay)
+    e.pop(ENV, None)
+    if env:
+        e.update(env)
+    rc, log = vf.sh([binary, "-test.run", run, "-test.count=1", "-test.timeout", "%ds" % timeout],
+                    cwd=os.path.join(vf.REPO, pkg_dir), env=e, timeout=timeout + 60)
+    recs = []
+    if os.path.exists(outp):
+        for line in open(outp, errors="replace"):
+            line = line.strip()
+            if line:
+                try:
+                    recs.append(json.loads(line))
+                except Exception:
+                    pass
+    return dict(rc=rc, log=log[-4000:], records=recs)
+
+
 def run(ctx):
     pid = ctx.pid
     os.environ.pop(ENV, None)
@@ -31,10 +64,12 @@ def run(ctx):
 
     # ---- correspondence: dispatch decisions of the real package under each setting vs Model/HybridRe.v
     dcases = []
-    for st in DISPATCH_SETTINGS:
+    dbin, dlog = build_test_binary(ctx, "internal/hybridre2", ["internal/hybridre2/zz_verif_c28d_test.go"], "c28d.test")
+    if not dbin:
+        broken.append("building the dispatch harness failed: " + dlog[-1200:])
+    for st in (DISPATCH_SETTINGS if dbin else []):
         env = {ENV: st} if st is not None else None
-        hr = vf.go_harness(ctx, "internal/hybridre2", "TestVerifC28D$", ["internal/hybridre2/zz_verif_c28d_test.go"],
-                           ctx.n(40, 400), env=env, timeout=900, out_name="disp_%s.jsonl" % (st or "unset"))
+        hr = run_test_binary(ctx, dbin, "internal/hybridre2", "TestVerifC28D$", ctx.n(40, 400), env, "disp_%s.jsonl" % (st or "unset"), 900)
         if hr["rc"] != 0:
             broken.append("harness TestVerifC28D failed under %s=%s (rc=%d): %s" % (ENV, st, hr["rc"], hr["log"][-1200:]))
         for r in hr["records"]:
@@ -57,9 +92,12 @@ def run(ctx):
     per = {}
     corpora = {}
     meta = {}
-    for st in SEARCH_SETTINGS:
-        hr = vf.go_harness(ctx, "index", "TestVerifC28$", ["index/zz_verif_c28_test.go"], nq, env={ENV: st},
-                           timeout=1500 if ctx.tier == "quick" else 3400, out_name="search_%s.jsonl" % st)
+    sbin, slog = build_test_binary(ctx, "index", ["index/zz_verif_c28_test.go"], "c28s.test")
+    if not sbin:
+        broken.append("building the search harness failed: " + slog[-1200:])
+    for st in (SEARCH_SETTINGS if sbin else []):
+        hr = run_test_binary(ctx, sbin, "index", "TestVerifC28$", nq, {ENV: st}, "search_%s.jsonl" % st,
+                             1500 if ctx.tier == "quick" else 3400)
         if hr["rc"] != 0:
             broken.append("harness TestVerifC28 failed under %s=%s (rc=%d): %s" % (ENV, st, hr["rc"], hr["log"][-1200:]))
         got = 0
